@@ -516,6 +516,13 @@ def main(argv):
         "source_lines_executed": len(hits),
         "new_source_lines_unreached": len(unreached),
         "input_distribution": dist,
+        "followup_programs": {"count": sum(1 for c in cases if c.get("followup")),
+                              "first_call_kinds": {k: sum(1 for c in cases if c.get("first_kind") == k)
+                                                   for k in sorted({c.get("first_kind") for c in cases if c.get("followup")})},
+                              "with_retained_handles": sum(1 for c in cases if c.get("followup") and any(op[0] == "HHoldHandles" for op in c["prog"])),
+                              "what": "generic second phase (harness/followup.py): further API calls - faults, edits through live "
+                                      "element handles, settings, sums, sweeps - appended to this property's programs, followed by the "
+                                      "programs' own observations again; compared model vs implementation only"},
         "outcome_distribution": err_kinds,          # exceptions raised by the implementation, by class, over all ops
         "op_counts": op_counts,
         "program_sizes": {"min": min(prog_sizes), "max": max(prog_sizes), "mean": round(sum(prog_sizes) / len(prog_sizes), 1)} if prog_sizes else {},
